@@ -85,6 +85,7 @@ RenderSel(s, st) ==
     [] s.k = "slice" -> OptInt(s.lo) \o st.sp \o <<58>> \o st.sp \o OptInt(s.hi) \o
                         (IF s.st = <<>> THEN <<>> ELSE st.sp \o <<58>> \o st.sp \o OptInt(s.st))
     [] s.k = "filter" -> <<63>> \o st.sp \o RenderExpr(s.e, st, 0)
+    [] s.k = "raw" -> s.text          \* defect injection (C07): a selector given as literal text
 
 RenderSeg(seg, st) ==
   LET one == Len(seg.sels) = 1
@@ -119,6 +120,7 @@ RenderOperand(x, st) ==
     [] x.k = "re" -> IF x.lit THEN <<47>> \o PatternText(x.re) \o <<47>> \o (IF x.ic THEN <<105>> ELSE <<>>)
                      ELSE Quote(PatternText(x.re), st.q, st.uni)
     [] x.k = "raw" -> x.text      \* defect injection (C07): an operand given as literal text
+    [] x.k = "expr" -> RenderExpr(x.e, st, 0)   \* a logical expression in argument position
 
 \* prec: 0 top / inside ||, 1 inside &&, 2 operand of !
 RenderExpr(e, st, prec) ==
@@ -137,6 +139,7 @@ RenderExpr(e, st, prec) ==
                       IF prec > 1 \/ (full /\ prec > 0) THEN paren(s) ELSE s
     [] e.k = "paren" -> paren(RenderExpr(e.e, st, 0))     \* explicit redundant parentheses
     [] e.k = "rawexpr" -> e.text                          \* defect injection (C07)
+    [] e.k = "litexpr" -> RenderLit(e.v, st)              \* a literal that is not compared (C07: must be refused)
 
 Render(q, st) == RenderQ(q, st, TRUE)
 
